@@ -24,6 +24,7 @@ mod scale_common;
 mod scale_iovec;
 mod scale_codec;
 mod scale_stream;
+mod scale_readn;
 mod util;
 
 use std::io::Write;
@@ -51,6 +52,7 @@ fn families() -> Vec<Box<dyn Family>> {
     v.push(Box::new(scale_codec::ScaleCodecFamily));
     v.push(Box::new(scale_stream::ScaleChunkerFamily));
     v.push(Box::new(scale_stream::ScaleReaderFamily));
+    v.push(Box::new(scale_readn::ScaleReadNFamily));
     v
 }
 
